@@ -48,12 +48,16 @@ func buildTwin(tb *Table, cfg RouterCfg, capacity int, nGlobal int, routeMW []in
 }
 
 func runC07(e *Env) {
-	e.Rule = "twin routers built from the same generated table/options/middleware, one without caching and one with capacity in {0,1,2,3,5,1000} (CachingWithNum or EnableCaching+MaxNumCaches); request histories (20..200 requests) drawn with repetition from a pool of 2..5 paths, each under 1..3 methods (so that one path is hit by GET, HEAD and wrong-method requests), incl. HEAD->GET, wrong-method (405 probing) and 404 requests; after every request Match (route, params, allowed set) and ServeHTTP (handler trace with params seen by each handler, status, headers, body) of the twins are compared. A reference LRU predicts hits and evictions; histories are extended until it predicts >= 5 hits (and >= 3 evictions when the capacity is below the pool size). Non-trivial: a history with predicted hits; distinct by (table, options, capacity, history). A third of the cached routers are built from option values that a decoy router (same paths, other handlers) was built from before and that served the request pool first; nil-ness of Params is part of the observation. The Params maps handed to the handlers of the cached twin are kept and read again after the history (they must not have changed)."
+	e.Rule = "twin routers built from the same generated table/options/middleware, one without caching and one with capacity in {0,1,2,3,5,1000} (CachingWithNum or EnableCaching+MaxNumCaches); request histories (20..200 requests) drawn with repetition from a pool of 2..5 paths, each under 1..3 methods (so that one path is hit by GET, HEAD and wrong-method requests), incl. HEAD->GET, wrong-method (405 probing) and 404 requests; after every request Match (route, params, allowed set) and ServeHTTP (handler trace with params seen by each handler, status, headers, body) of the twins are compared. A reference LRU predicts hits and evictions; histories are extended until it predicts >= 5 hits (and >= 3 evictions when the capacity is below the pool size). Non-trivial: a history with predicted hits; distinct by (table, options, capacity, history). A third of the cached routers are built from option values that a decoy router (same paths, other handlers) was built from before and that served the request pool first; nil-ness of Params is part of the observation. The Params maps handed to the handlers of the cached twin are kept and read again after the history (they must not have changed). Part many-keys: a cache of the largest capacity (65535) takes 400 000 (thorough: 2 000 000) distinct paths of three dynamic routes (decimal, hexadecimal and suffixed segment shapes, GET and POST), so that every new path meets 65535 resident ones; the last 60 000 are then asked for again (served from the cache). Every answer is compared with the uncached twin (route name, parameters), a sixteenth of them also through ServeHTTP - whatever the cache is keyed by has to tell all of them apart."
 	e.Assumptions = []string{
 		"handlers treat Params as read-only; registration is finished before the first request",
 		"the uncached twin is the specification; both twins are built by the same code path with one option different",
 	}
 	e.RunCases("twins", e.N(3000, 200000), 0, c07Case)
+	// many distinct keys in one big cache (whatever the cache is keyed by must tell all of them apart)
+	e.RunCases("many-keys", e.N(1, 4), 2, c07ManyKeys)
+	e.Require("many_keys.second_pass_compared", 50000)
+	e.Require("many_keys.second_pass_cache_full", 1)
 	e.Require("model.hits_predicted", 1000)
 	e.Require("model.evictions_predicted", 300)
 	e.Require("steps.head_fallback", 50)
@@ -276,4 +280,96 @@ func c07Case(t *T) {
 	if hits > 0 {
 		t.NonTrivial(fmt.Sprint(tb.Describe(), cfg.Describe(), capacity, hist))
 	}
+}
+
+// c07ManyKeys: the largest cache there is, driven through very many distinct paths (each new one
+// meets 65535 resident entries); the most recent ones are then asked for again. Route and
+// parameters must always be those of the uncached twin.
+func c07ManyKeys(t *T) {
+	r := t.R
+	n := 400000
+	if t.E.Thorough() {
+		n = 2000000
+	}
+	const again = 60000
+	shape := r.IntN(3)
+	base := r.IntN(1 << 30)
+	mk := func(rt *rux.Router) {
+		h := func(name string) rux.HandlerFunc {
+			return func(c *rux.Context) { c.Text(200, name+":"+fmtParams(copyParams(c.Params))) }
+		}
+		rt.GET("/u/{id}", h("u")).NamedTo("u", rt)
+		rt.GET("/v/{id}/x", h("v")).NamedTo("v", rt)
+		rt.POST("/u/{id}", h("pu")).NamedTo("pu", rt)
+	}
+	plain := rux.New()
+	mk(plain)
+	cached := rux.New(rux.CachingWithNum(65535))
+	if chance(r, 1, 2) {
+		cached = rux.New(rux.EnableCaching, rux.MaxNumCaches(65535))
+	}
+	mk(cached)
+	path := func(i int) (string, string) {
+		var seg string
+		switch shape {
+		case 0:
+			seg = fmt.Sprintf("%d", base+i)
+		case 1:
+			seg = fmt.Sprintf("%x", base+i*7)
+		default:
+			seg = fmt.Sprintf("k%d-%d", i%97, base+i)
+		}
+		switch i % 3 {
+		case 0:
+			return "GET", "/u/" + seg
+		case 1:
+			return "GET", "/v/" + seg + "/x"
+		}
+		return "POST", "/u/" + seg
+	}
+	t.Describe(func() any { return map[string]any{"keys": n, "shape": shape, "base": base} })
+	name := func(rt *rux.Route) string {
+		if rt == nil {
+			return "<nil>"
+		}
+		return rt.Name()
+	}
+	compare := func(pass string, i int) bool {
+		m, p := path(i)
+		r1, ps1, _ := plain.Match(m, p)
+		r2, ps2, _ := cached.Match(m, p)
+		n1, n2 := name(r1), name(r2)
+		p1, p2 := fmtParams(copyParams(ps1)), fmtParams(copyParams(ps2))
+		if n1 != n2 || p1 != p2 {
+			t.Fail("many-keys-match-differs", "%s pass, key #%d %s %q: without cache route %q {%s}, with cache route %q {%s}", pass, i, m, p, n1, p1, n2, p2)
+			return false
+		}
+		if i%16 == 0 {
+			w1, w2 := NewRec(), NewRec()
+			plain.ServeHTTP(w1, NewReq(m, p))
+			cached.ServeHTTP(w2, NewReq(m, p))
+			if fmt.Sprint(w1.Calls) != fmt.Sprint(w2.Calls) || w1.Body.String() != w2.Body.String() {
+				t.Fail("many-keys-serve-differs", "%s pass, key #%d %s %q: without cache %v %q, with cache %v %q", pass, i, m, p, w1.Calls, w1.Body.String(), w2.Calls, w2.Body.String())
+				return false
+			}
+			t.Count("many_keys.served", 1)
+		}
+		return true
+	}
+	for i := 0; i < n; i++ {
+		if !compare("first", i) {
+			return
+		}
+	}
+	t.Count("many_keys.first_pass_compared", int64(n))
+	if c := cached.VerifCachedRoutes(); c != nil && c.Len() == 65535 {
+		t.Count("many_keys.second_pass_cache_full", 1)
+	}
+	for i := n - again; i < n; i++ {
+		if !compare("second", i) {
+			return
+		}
+	}
+	t.Count("many_keys.second_pass_compared", again)
+	t.NonTrivial(fmt.Sprint("many-keys", n, shape, base))
 }
